@@ -54,6 +54,8 @@ pub struct Features {
     pub pd_only: bool,
     /// Recharge stations with a distance limit between recharges (experimental feature of the format).
     pub recharges: bool,
+    /// Time-dependent routing: several matrices with timestamps per profile.
+    pub time_dependent: bool,
 }
 
 impl Features {
@@ -66,7 +68,7 @@ impl Features {
             multi_job, multi_dim, multi_tw, multi_place, tags, skills, groups, compat, order, value, limits, tour_size,
             multi_shift, open_end, latest_departure, unreachable, multi_profile, scale, reloads, shared_reload,
             opt_breaks, req_breaks, relations, nonmetric, asymmetric, objectives, same_location, tight, many_vehicles,
-            replacement, service, pickups, unreachable_random, reload_focus, shift_focus, clustering, recharges
+            replacement, service, pickups, unreachable_random, reload_focus, shift_focus, clustering, recharges, time_dependent
         );
         v
     }
@@ -85,7 +87,7 @@ impl Features {
             latest_departure: 1.0, unreachable: 0.5, multi_profile: 0.7, scale: 0.6, reloads: 0.7, shared_reload: 0.5,
             opt_breaks: 0.7, req_breaks: 0.5, relations: 0.7, nonmetric: 0.25, asymmetric: 0.8, objectives: 1.2,
             same_location: 1.0, tight: 0.8, many_vehicles: 0.6, replacement: 0.5, service: 0.6, pickups: 1.2,
-            clustering: 0.5, recharges: 0.4
+            clustering: 0.5, recharges: 0.4, time_dependent: 0.4
         );
         f.shared_reload = f.shared_reload && f.reloads;
         f.pd_only = allowed.pd_only;
@@ -128,6 +130,7 @@ impl Features {
             clustering: false,
             pd_only: false,
             recharges: false,
+            time_dependent: false,
         }
     }
 }
@@ -731,7 +734,28 @@ pub fn generate(seed: u64, limits: &GenLimits, allowed: &Features) -> GenProblem
             }
             m.insert("errorCodes".into(), json!(codes));
         }
-        matrices.push(Value::Object(m));
+        if f.time_dependent {
+            // several matrices of the profile with timestamps. Later matrices are elementwise multiples of the first one:
+            // every slice (and every interpolation between two of them) is a metric again and travel never gets faster
+            // with time, so taking a stop out of a tour cannot make a later stop late
+            let n_slices = cx.p.usize(2, 3);
+            let mut ts = cx.p.range(0, horizon / 6);
+            let (mut kd, mut kx) = (1i64, 1i64);
+            for k in 0..n_slices {
+                let mut mk = m.clone();
+                if k > 0 {
+                    ts += cx.p.range(horizon / 10, horizon / 2);
+                    kd += cx.p.range(0, 2);
+                    kx += cx.p.range(0, 1);
+                    mk.insert("travelTimes".into(), json!(dur.iter().map(|d| d * kd).collect::<Vec<_>>()));
+                    mk.insert("distances".into(), json!(dist.iter().map(|d| d * kx).collect::<Vec<_>>()));
+                }
+                mk.insert("timestamp".into(), json!(fmt_time(T0 + ts)));
+                matrices.push(Value::Object(mk));
+            }
+        } else {
+            matrices.push(Value::Object(m));
+        }
     }
 
     GenProblem { problem, matrices, features: f }
